@@ -172,7 +172,24 @@ EXTRA5 = {
  "C10": " Servers with sessions disabled and event-stream answers; notification payloads contain printf verbs.",
 }
 EXTRA6 = {
- "C20": " The bursts of concurrent initialize / DELETE of TestC04Concurrent run under the detector as well (they exposed a race of the unchanged tree, repaired).",
+ "C01": " One case in three pads the arguments of some requests (3 KB - 300 KB: requests larger than a read buffer).",
+ "C03": " TestC03Panic: tool / prompt / resource handlers and middlewares that panic on Streamable servers with 0-2 middlewares, next to healthy requests with large prose answers: whatever is written is a well-formed message, a panicking request is never answered as a success, a healthy one is answered.",
+ "C04": " Servers are built with 0-2 pass-through middlewares. A statistical verdict on issued ids is confirmed on a fresh sample of 4000 ids before it is reported.",
+ "C05": " burst: three goroutines broadcast and send filtered notifications at the same time (one filter consults the server's session list): every open session receives each once.",
+ "C06": " Paging cursors of every JSON type on the four list methods, servers with a list filter that hides a tool, and runs of up to 300 blank / whitespace / bare-CR lines on stdio (writes to the server's input have a deadline: a server that stops reading is reported).",
+ "C07": " Answers whose result has the wrong shape somewhere inside (annotations, content items, scalars for objects): an error or any value, never a crash. One script in four consists of skippable elements only (comments, blank lines, other event types, notifications, requests, answers under unknown or mistyped ids): the answer among them must arrive.",
+ "C09": " post-stream: a session without a listening stream has 1-6 requests answered as event streams (their handlers emit notifications) while up to 12 goroutines send to the session and broadcast: each answer stream has one writer at a time, every event parses on its own, own notifications once and in order, one response, nothing written after the handler returned.",
+ "C10": " Progress / log messages and custom parameters carry awkward text (control characters, DEL, line separators, unprintable astral runes, bytes that are not UTF-8). Every third notification may make its handler register and remove another handler on the same client; those calls must return.",
+ "C11": " Sends are addressed or filtered down to the session, alternately.",
+ "C12": " A version whose replacement had completed before a request began may no longer be listed or served (stale-entry / stale-handler). Tool handlers take a moment and two in three answer with a JSON document as text. After every history: each registry's handler is swapped three times under an unchanged descriptor (same pointer, fresh equal value) and the next request must reach the handler registered last. TestC12Notif: a goroutine registers and unregisters a method up to 2000 times while that method's notifications arrive.",
+ "C13": " The legacy SSE server is given 1-3 context-function options: whichever of them it runs, it runs in the order given, the one given last among them.",
+ "C14": " One case in three closes with: list everything, register one tool, prompt and resource again under its name with a new definition, list everything again and use the three entries - compared across all modes.",
+ "C15": " Requests that belong to no session (stateless mode) never share a session object: a session id seen by one request's stages is seen by no other request's.",
+ "C16": " A roots provider may be set before the first handshake; handshake mode later-fail loses every message other than the two handshake messages while Initialize runs - whatever Initialize returns, state and guard agree with it.",
+ "C17": " End to end: error statuses may carry application/json bodies (JSON-RPC error objects, results, other JSON) - the status decides; the caller's context ends (cancelled, or its deadline passes - a context type of the harness) at the moment a chosen wait begins: no further attempt, and the call's error names the context's error.",
+ "C18": " TestC18Typed alternates between the nested input struct and a scalar-only one whose string, int and int64 fields carry the ,string option.",
+ "C19": " Static headers may use well-known names (User-Agent, Authorization, X-Api-Key); the before-request function may add a query parameter to the URL of one request kind (documented: it may modify the URL) - all other requests still go to the configured URL, that kind carries exactly one such parameter.",
+ "C20": " The bursts of concurrent initialize / DELETE of TestC04Concurrent and the registration churn of TestC12Notif run under the detector as well (the former exposed a race of the unchanged tree, repaired); in the client workload the application sets roots providers and (un)registers handlers while the handshake runs.",
 }
 for _e in (EXTRA, EXTRA3, EXTRA4, EXTRA5, EXTRA6):
     for _k, _v in _e.items():
